@@ -160,6 +160,10 @@ def trappist(
 
     results: list[BooleanSpace] = []
 
+    if solution_limit is not None and solution_limit <= 0:
+        # No solution may be returned, so there is nothing to enumerate.
+        return results
+
     def save_result(x: BooleanSpace) -> bool:
         results.append(x)
         if solution_limit is None:
@@ -497,6 +501,10 @@ def compute_fixed_point_reduced_STG(
     """
 
     results: list[BooleanSpace] = []
+
+    if solution_limit is not None and solution_limit <= 0:
+        # No solution may be returned, so there is nothing to enumerate.
+        return results
 
     def save_result(x: BooleanSpace) -> bool:
         results.append(x)
